@@ -215,6 +215,9 @@ def c15():
 
 
 SCOPE_SEQS = ["r", "l", "a", "lr", "la", "ll", "elr", "lelr", "elxr", "lelxr", "lelxa", "elxelr", "lelar"]
+# measured on the pinned tree: out of memory at the 12 GB cap (two global definitions in one sequence, or three lets)
+SCOPE_DO_NOT_FIT = {("la", "top"), ("ll", "top"), ("lelr", "top"), ("lelxr", "top"), ("lelxa", "local"), ("lelxa", "top"),
+                    ("lelar", "local"), ("lelar", "top"), ("lelar", "block")}
 COMPILE_FUNCS = ["bytecode::compiler::<AST as Compiled>::compile_into (arms Integer, Boolean, Null, Variable, AccessVariable, AssignVariable)",
                  "compiler::Environment::{new,enter_scope,leave_scope,register_new_local,register_local,has_local,in_outermost_scope,count_locals}",
                  "program::{ConstantPool::register,ConstantPool::find,Globals::register,Code::emit,Code::emit_unless}"]
@@ -224,7 +227,8 @@ COMPILE_BOUNDS = ["one AST node per step: literals (all values), let / assign wi
                   "  (L let, R read, A assign, E enter block, X leave block)"]
 COMPILE_OUTSIDE = ["nesting deeper than one node (composition is by the syntax-directed structure, not machine-checked)",
                    "sequences longer than 6 operations, more than two names, a second let of a name in the same scope"]
-COMPILE_NOT_COVERED = ["arms with several children (calls, print, object, array, block, conditional, loop, function, top): each recursive compile_into call "
+COMPILE_NOT_COVERED = ["scope sequences with two global definitions or three lets (LA, LL, LELR, LELXR, LELXA at top level; LELAR): out of memory at 12 GB",
+                       "arms with several children (calls, print, object, array, block, conditional, loop, function, top): each recursive compile_into call "
                        "explores all 23 arms, the cost is exponential in depth (Conditional with literal children: 652 s; two levels: > 8 GB); "
                        "label uniqueness, jump targets, frame sizes of nested functions and the compound-array rewrite are not decided"]
 
@@ -235,7 +239,10 @@ def compile_prop(pid, quick_literals, quick_seqs):
         p.add("h_compile::compile_literal_%s" % fk, quick=fk in quick_literals, timeout=900, drives=["compile_into"], bound="literal arm, frame %s" % fk)
     for sq in SCOPE_SEQS:
         for fk in ("local", "top", "block"):
-            p.add("h_compile::scope_%s_%s" % (sq, fk), quick=(sq, fk) in quick_seqs, timeout=1500, drives=["compile_into", "Environment"],
+            if (sq, fk) in SCOPE_DO_NOT_FIT:
+                continue
+            p.add("h_compile::scope_%s_%s" % (sq, fk), quick=(sq, fk) in quick_seqs, timeout=1500, mem_gb=(16 if len(sq) >= 4 else 12),
+                  weight=(2 if len(sq) >= 4 else 1), drives=["compile_into", "Environment"],
                   bound="sequence %s in frame %s, every name assignment" % (sq.upper(), fk))
     p.functions, p.bounds, p.outside, p.not_covered = COMPILE_FUNCS, COMPILE_BOUNDS, COMPILE_OUTSIDE, COMPILE_NOT_COVERED
     return p
@@ -249,7 +256,112 @@ def c12():
     return compile_prop("C12", set(), {("lr", "local"), ("lr", "top"), ("elr", "block"), ("elxr", "local"), ("lelr", "local"), ("lelxr", "block")})
 
 
-REGISTRY = {"C02": c02, "C12": c12, "C15": c15, "C05": c05, "C03": c03, "C04": c04, "C08": c08, "C09": c09}
+def c07():
+    p = Prop("C07")
+    p.smt_tasks.append(SmtTask("c07_grammar_tables", "c07_grammar.py", quick=True, timeout=1200, args=["3"], thorough_args=["5"]))
+    p.smt_tasks.append(SmtTask("lexer_regex_c07", "c07_lexer.py", quick=True, timeout=300, args=["C07"]))
+    for h, q in (("fold_len1", True), ("fold_len2", True), ("fold_mixed", False), ("operation_names", True)):
+        p.add("h_parse::parse_" + h, quick=q, timeout=900, drives=["AST::from_binary_expression", "AST::operation", "Identifier::from(Operator)"],
+              bound="operator fold over 3 operators, operators symbolic within their symbol-length class")
+    p.functions = ["fml.lalrpop: LALR tables generated by lalrpop 0.18.1 (__ACTION, __EOF_ACTION, __GOTO, __reduceN), match-block regexes",
+                   "parser::AST::{from_binary_expression,operation}", "parser::Operator::as_str", "<Identifier as From<Operator>>::from"]
+    p.bounds = ["precedence / associativity: all 13^n operator tuples, n <= 3 (quick) / n <= 5 (thorough), on the generated tables",
+                "templates: dangling else, field/call/index chain, index chain, array and field assignment, parentheses; atoms symbolic "
+                "over identifier / number / true / false / null / this",
+                "lexer: regular-language equivalence, inclusion and disjointness queries without a length bound"]
+    p.outside = ["the semantic actions of productions other than the operator fold (Rust closures the tables do not contain)",
+                 "printing an AST back to source and re-parsing; redundant-parenthesis insertion; sentences outside the templates",
+                 "operator runs longer than 5"]
+    p.stubs = p.stubs + ["lalrpop's LR driver is re-implemented by the symbolic executor (shift / reduce / goto on the generated tables); it is "
+                         "validated on every run against /repo's real parser on all 169 operator pairs",
+                         "regex crate semantics as given to z3 (Unicode white space for \\s, `.` excludes LF, negated classes include LF)"]
+    return p
+
+
+def c10():
+    p = Prop("C10")
+    for h, q in (("loop_stops_at_failure", True), ("drop_label", True), ("get_field", True), ("set_field_non_object", True), ("literal", False),
+                 ("get_local", False), ("set_local", False), ("get_global", False), ("set_global", False), ("jump", False), ("branch", True),
+                 ("return", False), ("array", False), ("set_field", False)):
+        p.add("h_vm::vm_" + h, quick=q, timeout=900, drives=["eval_" + h], bound="failure conjuncts: Err exactly where the step is undefined, no other panic reachable")
+    for n in range(0, 6):
+        p.add("h_print::print_len%d_args0" % n, quick=n in (1, 3), timeout=1200, drives=["eval_print"], bound="failing print writes nothing; format strings of %d bytes" % n)
+    p.add("h_print::print_bad_constant", quick=True, timeout=900)
+    p.add("h_print::print_short_stack", quick=False, timeout=900)
+    for op in ("div", "mod"):
+        p.add("h_c09::c09_int_%s_sym_r9" % op, quick=(op == "div"), timeout=600, bound="zero divisor / MIN / -1: Rust's division panic or Err")
+    p.add("h_c09::c09_unknown_int_len2", quick=False, timeout=900)
+    p.smt_tasks.append(SmtTask("c09_dispatch_mir", "c09_dispatch.py", quick=True, timeout=900))
+    p.functions = VM_FUNCS + PRINT_FUNCS
+    p.bounds = VM_BOUNDS + PRINT_BOUNDS
+    p.outside = VM_OUTSIDE + ["process exit status and stderr/stdout separation (main.rs), lexer/parser rejections",
+                              "FML call depth 10^5 and source nesting depth 200 (CBMC cannot unwind that far)"]
+    p.not_covered = VM_NOT_COVERED + PRINT_NOT_COVERED + ["termination of recursive rendering on cyclic heaps (known finding, see known_findings.txt)"]
+    return p
+
+
+def c13():
+    p = Prop("C13")
+    for h, q in (("branch", True), ("array", True), ("set_field", True), ("drop_label", False), ("return", False)):
+        p.add("h_vm::vm_" + h, quick=q, timeout=900, bound="operands popped exactly once and in the pushed order")
+    for sq, fk in (("la", "local"), ("l", "top")):
+        p.add("h_compile::scope_%s_%s" % (sq, fk), quick=True, timeout=1500, bound="value compiled before the store")
+    p.functions = VM_FUNCS + COMPILE_FUNCS
+    p.bounds = VM_BOUNDS + COMPILE_BOUNDS
+    p.outside = VM_OUTSIDE + COMPILE_OUTSIDE
+    p.not_covered = VM_NOT_COVERED + COMPILE_NOT_COVERED + PRINT_NOT_COVERED + [
+        "compiler-side order of receiver / arguments / object members / array size and initializer / loop condition (arms with several children)",
+        "array(n, E.f) with an effectful E evaluates E once where the README says once per element (observed by reading, DESIGN 6)"]
+    return p
+
+
+def c14():
+    p = Prop("C14")
+    for h, q in (("get_field", True), ("set_field", True), ("set_field_non_object", True)):
+        p.add("h_vm::vm_" + h, quick=q, timeout=900, bound="fields are read and updated in place through a heap reference")
+    p.smt_tasks.append(SmtTask("c09_dispatch_mir", "c09_dispatch.py", quick=True, timeout=900))
+    p.functions = VM_FUNCS
+    p.bounds = VM_BOUNDS
+    p.outside = VM_OUTSIDE
+    p.not_covered = VM_NOT_COVERED + ["parent-chain dispatch and overriding (needs about 20 GB per chain shape under CBMC)"]
+    return p
+
+
+def c16():
+    p = Prop("C16")
+    for h, q in (("array", True), ("literal", True), ("get_local", False), ("set_local", False), ("get_global", False), ("set_global", False),
+                 ("branch", False), ("get_field", True), ("set_field", False)):
+        p.add("h_vm::vm_" + h, quick=q, timeout=900, bound="heap length after the step: +1 exactly for a successful array creation, unchanged otherwise; any --heap-size")
+    for h in ("array0", "array2", "object"):
+        p.add("h_heap::heap_allocate_" + h, quick=True, timeout=900, drives=["Heap::allocate", "HeapObject::size"],
+              bound="allocate returns the old length, appends one cell, adds exactly size() > 0, size depends on shape only")
+    p.functions = VM_FUNCS + ["heap::Heap::{allocate,set_size,verif_size (hook)}", "heap::HeapObject::size"]
+    p.bounds = VM_BOUNDS
+    p.outside = VM_OUTSIDE + ["the CSV file itself (header, S record, timestamps, one A line per allocation): File and SystemTime are FFI; "
+                              "the claim stops at `heap_log!(ALLOCATE)` being invoked once per allocate, which is read, not solved"]
+    p.not_covered = VM_NOT_COVERED
+    return p
+
+
+def c11():
+    p = Prop("C11")
+    for name, q in (("h_ser::ser_framing_layout", True), ("h_ser::ser_method2_layout", False), ("h_compile::scope_lr_local", True),
+                    ("h_compile::scope_lelr_block", False), ("h_vm::vm_get_global", True), ("h_vm::vm_jump", False), ("h_c09::c09_int_add_sym", True),
+                    ("h_c09::c09_int_mul_feeny", False)):
+        p.add(name, quick=q, timeout=1500, bound="kernel output is a function of its inputs (equals a reference computed from them); no clock / "
+                                               "environment / random call and no profile-dependent check is reachable")
+    p.smt_tasks.append(SmtTask("c09_dispatch_mir", "c09_dispatch.py", quick=True, timeout=900))
+    p.functions = SER_FUNCS + COMPILE_FUNCS + VM_FUNCS
+    p.bounds = ["a cross-section of the serializer, compiler and VM harnesses: each compares the real kernel with a reference that is a function of the "
+                "harness inputs only; any reachable FFI (clock, environment, randomness) is a Kani failure by construction; overflow checks on "
+                "(dev profile semantics) and no failing arithmetic check means dev and release compute the same function"]
+    p.outside = ["fresh processes, real hash seeds, two differently built binaries: this is a per-kernel noninterference argument",
+                 "hash-map iteration order: the kernels only look maps up by key (the Vec-backed models expose no hash order to depend on)"]
+    p.not_covered = ["whole-program compile / run determinism", "object printing order (sorted fields) — rendering does not fit CBMC"]
+    return p
+
+
+REGISTRY = {"C07": c07, "C10": c10, "C11": c11, "C13": c13, "C14": c14, "C16": c16, "C02": c02, "C12": c12, "C15": c15, "C05": c05, "C03": c03, "C04": c04, "C08": c08, "C09": c09}
 
 
 def get(pid):
